@@ -436,7 +436,147 @@ func attack(ct *ctrl, first string, s *c16sched) {
 	}
 }
 
+// Scenarios beside the scheduled ones, judged by the direct oracles only (every Close returns, every Serve
+// returns nil, nothing panics, nothing hangs):
+//   listeners_k   one server serving k listeners (TCP + unix socket, two ports): Close ends every accept loop;
+//   stalled_*     a connection that stopped sending in the middle of a message (inside the header, inside a
+//                 body within the limit, inside the body of a message above the limit that is being skipped):
+//                 no command has started, Close does not wait for that client.
+func runC16extras(c *runCfg) {
+	id := 0
+	emit := func(class string, nc, returned int, serveNil, hang bool, panics int) {
+		c.out.line(sx("c16x", fmt.Sprintf("x%d", id), class, sx("nc", nc), sx("final", sx("panic", panics), sx("returned", returned), sx("servenil", serveNil), sx("latestart", false), sx("runningatreturn", false), sx("hang", hang))))
+		c.stat("class_" + class)
+		id++
+	}
+	parse := func(ctx context.Context, query string) (wire.PreparedStatements, error) {
+		return wire.Prepared(wire.NewStatement(func(ctx context.Context, w wire.DataWriter, p []wire.Parameter) error {
+			return w.Complete("OK")
+		})), nil
+	}
+	wire.SetVerifHook(nil)
+	for _, k := range []int{2, 3} {
+		for _, nclose := range []int{1, 2} {
+			srv, err := wire.NewServer(parse, wire.Logger(quiet), wire.MessageBufferSize(256))
+			if err != nil {
+				panic(err)
+			}
+			var lsts []*memListener
+			serveDone := make(chan error, k)
+			for i := 0; i < k; i++ {
+				l := &memListener{closed: make(chan struct{})}
+				lsts = append(lsts, l)
+				go func() { serveDone <- srv.Serve(l) }()
+				time.Sleep(5 * time.Millisecond) // the earlier accept loop is running when the next one starts
+			}
+			closed := make(chan struct{}, nclose)
+			for i := 0; i < nclose; i++ {
+				go func() { srv.Close(); closed <- struct{}{} }()
+			}
+			returned, hang, allNil := 0, false, true
+			for i := 0; i < nclose; i++ {
+				select {
+				case <-closed:
+					returned++
+				case <-time.After(stepWait):
+					hang = true
+				}
+			}
+			for i := 0; i < k; i++ {
+				select {
+				case err := <-serveDone:
+					allNil = allNil && err == nil
+				case <-time.After(stepWait):
+					allNil, hang = false, true
+				}
+			}
+			for _, l := range lsts {
+				select {
+				case <-l.closed:
+				default:
+					allNil = false // a listener handed to Serve is still open after Close
+				}
+				l.Close()
+			}
+			emit(fmt.Sprintf("listeners_%d", k), nclose, returned, allNil, hang, 0)
+		}
+	}
+	big := msg('Q', make([]byte, 1000))
+	within := mQuery(bytes.Repeat([]byte("x"), 100))
+	stalls := []struct {
+		class string
+		part  []byte
+	}{
+		{"stalled_header", within[:3]},
+		{"stalled_body", within[:40]},
+		{"stalled_oversize_header", big[:5]},
+		{"stalled_oversize_body", big[:300]},
+		{"stalled_oversize_discarding", cat(mBind(nil, []byte("nosuch"), nil, nil, nil), big[:300])},
+	}
+	for _, st := range stalls {
+		srv, err := wire.NewServer(parse, wire.Logger(quiet), wire.MessageBufferSize(256))
+		if err != nil {
+			panic(err)
+		}
+		lst := &memListener{closed: make(chan struct{})}
+		serveDone := make(chan error, 1)
+		go func() { serveDone <- srv.Serve(lst) }()
+		conn := newMemConn()
+		panics := 0
+		var pmu sync.Mutex
+		go func() {
+			defer conn.markFinished()
+			defer func() {
+				if p := recover(); p != nil {
+					pmu.Lock()
+					panics++
+					pmu.Unlock()
+				}
+			}()
+			srv.ServeConn(context.Background(), conn)
+		}()
+		conn.push(stdStartup)
+		conn.waitIdle(stepWait)
+		conn.push(mQuery([]byte("select 1")))
+		conn.waitIdle(stepWait)
+		conn.push(st.part)
+		conn.waitIdle(stepWait) // the server waits for the rest of the message
+		closed := make(chan struct{}, 1)
+		go func() { srv.Close(); closed <- struct{}{} }()
+		returned, hang, serveNil := 0, false, false
+		select {
+		case <-closed:
+			returned = 1
+		case <-time.After(stepWait):
+			hang = true
+		}
+		select {
+		case err := <-serveDone:
+			serveNil = err == nil
+		case <-time.After(stepWait):
+			hang = true
+		}
+		conn.setEOF()
+		conn.waitFinished(stepWait)
+		if returned == 0 {
+			select {
+			case <-closed:
+			case <-time.After(stepWait):
+			}
+		}
+		pmu.Lock()
+		np := panics
+		pmu.Unlock()
+		emit(st.class, 1, returned, serveNil, hang, np)
+	}
+}
+
 func runC16(c *runCfg) error {
+	if c.replay == "" {
+		runC16extras(c)
+	} else if b, err := os.ReadFile(c.replay); err == nil && bytes.Contains(b, []byte("c16x")) {
+		runC16extras(c)
+	}
 	path := os.Getenv("C16_SCHEDULES")
 	if c.replay != "" {
 		path = c.replay
